@@ -10,5 +10,6 @@ CONSTANTS
   TrustScanOrder = FALSE
   SwapBeforeApply = FALSE
   BatchOnSharedCopy = FALSE
+  BuildTrustsStorage = FALSE
 INVARIANT Inv
 CHECK_DEADLOCK FALSE
